@@ -16,6 +16,7 @@ Functions:
 
 from __future__ import annotations
 
+import copy
 from dataclasses import dataclass
 from functools import partial
 from typing import TYPE_CHECKING, Protocol, cast
@@ -151,7 +152,8 @@ def steady_state(
 
     """
     if y0 is not None:
-        model.update_variables(y0)
+        # On a copy, the start values are those of this call only
+        model = copy.deepcopy(model).update_variables(y0)
 
     res = parallelise(
         partial(
@@ -210,7 +212,8 @@ def time_course(
 
     """
     if y0 is not None:
-        model.update_variables(y0)
+        # On a copy, the start values are those of this call only
+        model = copy.deepcopy(model).update_variables(y0)
 
     res = parallelise(
         partial(
@@ -267,7 +270,8 @@ def protocol(
 
     """
     if y0 is not None:
-        model.update_variables(y0)
+        # On a copy, the start values are those of this call only
+        model = copy.deepcopy(model).update_variables(y0)
 
     res = parallelise(
         partial(
@@ -325,7 +329,8 @@ def protocol_time_course(
 
     """
     if y0 is not None:
-        model.update_variables(y0)
+        # On a copy, the start values are those of this call only
+        model = copy.deepcopy(model).update_variables(y0)
 
     res = parallelise(
         partial(
@@ -420,7 +425,8 @@ def scan_steady_state(
 
     """
     if y0 is not None:
-        model.update_variables(y0)
+        # On a copy, the start values are those of this call only
+        model = copy.deepcopy(model).update_variables(y0)
 
     res = parallelise(
         partial(
